@@ -383,7 +383,9 @@ impl<'a> Ctx<'a> {
                 };
                 let (nb, na) = adjust_validity(ee, faults);
                 let t = self.ee_truth(ca_idx, ee, nb, na, faults, claimed);
-                (bytes, ObjTruth::Aspa { decodes: !garbage, content_sig_ok: !faults.contains(&Fault::BadContentSignature),
+                // rpki refuses to decode an ASPA with no provider or with the customer among the providers
+                let decodable = !provs.is_empty() && !provs.contains(customer);
+                (bytes, ObjTruth::Aspa { decodes: !garbage && decodable, content_sig_ok: !faults.contains(&Fault::BadContentSignature),
                                          ee: t, customer: *customer, providers: provs })
             }
             ObjKind::Gbr { ee } => {
@@ -416,6 +418,19 @@ impl<'a> Ctx<'a> {
             return Err(format!("{}: internal: requested signature corruption was not applied", what))
         }
         let bytes = if garbage { Bytes::from_static(GARBAGE) } else { bytes };
+        // cross-check the `decodes` bit with the decoders of the rpki crate (both modes)
+        for strict in [false, true] {
+            let (claimed, actual) = match &truth {
+                ObjTruth::Ca(c) | ObjTruth::Router { cert: c, .. } => (c.decodes, rpki::repository::cert::Cert::decode(bytes.clone()).is_ok()),
+                ObjTruth::Roa { decodes, .. } => (*decodes, rpki::repository::roa::Roa::decode(bytes.clone(), strict).is_ok()),
+                ObjTruth::Aspa { decodes, .. } => (*decodes, rpki::repository::aspa::Aspa::decode(bytes.clone(), strict).is_ok()),
+                ObjTruth::Gbr { decodes, .. } => (*decodes, rpki::repository::sigobj::SignedObject::decode(bytes.clone(), strict).is_ok()),
+                ObjTruth::Other { .. } => (true, true),
+            };
+            if claimed != actual {
+                return Err(format!("{}: ground truth says decodes={} but rpki (strict={}) says {}", what, claimed, strict, actual))
+            }
+        }
         self.cache.insert(key, (Some(bytes.clone()), truth.clone()));
         Ok((bytes, truth))
     }
